@@ -66,7 +66,7 @@ pub(crate) mod verif_c14f {
 
     /// glyph(c): the cell (i mod glyphs_per_row, i div glyphs_per_row) * character_size, of character
     /// size; it lies completely inside the font image iff i < glyphs_per_row * rows.
-    //@harness prop=C14 kind=contract tier=quick class=P bound="atlas data <= 16 bytes (cell <= 8x8, atlas <= 4x4 cells); glyph index unrestricted below 2^20" fns=src/mono_font/mod.rs::MonoFont::glyph
+    //@harness prop=C14,C08 kind=contract tier=quick class=P bound="atlas data <= 16 bytes (cell <= 8x8, atlas <= 4x4 cells); glyph index unrestricted below 2^20" fns=src/mono_font/mod.rs::MonoFont::glyph
     #[kani::proof]
     #[kani::unwind(4)]
     fn c14_glyph_cell() {
@@ -89,7 +89,7 @@ pub(crate) mod verif_c14f {
     }
 
     /// decorations cover the full text width at the font's decoration offsets
-    //@harness prop=C14 kind=contract tier=quick class=P fns=src/mono_font/mod.rs::DecorationDimensions::get_bounding_box
+    //@harness prop=C14,C08 kind=contract tier=quick class=P fns=src/mono_font/mod.rs::DecorationDimensions::get_bounding_box
     #[kani::proof]
     fn c14_decoration_box() {
         let d = DecorationDimensions::new(kani::any(), kani::any());
@@ -303,7 +303,7 @@ pub(crate) mod verif_c14s {
         kani::cover!(n == 2 && p.cw > 0);
     }
     /// transparent colours: holds for fonts without character spacing ...
-    //@harness prop=C15 kind=bounded tier=quick class=P bound="transparent text/background colours; string \"ab\"; symbolic font metrics (cell <= 64), character spacing 0" fns=src/mono_font/mono_text_style.rs::MonoTextStyle::draw_string;src/mono_font/mono_text_style.rs::MonoTextStyle::measure_string;src/mono_font/mono_text_style.rs::MonoTextStyle::baseline_offset
+    //@harness prop=C15,C08 kind=bounded tier=quick class=P bound="transparent text/background colours; string \"ab\"; symbolic font metrics (cell <= 64), character spacing 0" fns=src/mono_font/mono_text_style.rs::MonoTextStyle::draw_string;src/mono_font/mono_text_style.rs::MonoTextStyle::measure_string;src/mono_font/mono_text_style.rs::MonoTextStyle::baseline_offset
     #[kani::proof]
     #[kani::unwind(8)]
     fn c15_draw_returns_measured_position_transparent() {
@@ -331,7 +331,7 @@ pub(crate) mod verif_c14s {
         style.background_color = None;
         returns_measured(style, &p, "ab");
     }
-    //@harness prop=C15 kind=bounded tier=quick class=P bound="text and/or background colour set; string \"ab\"; symbolic font metrics (cell <= 64, spacing <= 3)" timeout=900
+    //@harness prop=C15,C08 kind=bounded tier=quick class=P bound="text and/or background colour set; string \"ab\"; symbolic font metrics (cell <= 64, spacing <= 3)" timeout=900
     #[kani::proof]
     #[kani::unwind(8)]
     fn c15_draw_returns_measured_position_colored() {
@@ -346,7 +346,7 @@ pub(crate) mod verif_c14s {
     /// Everything drawn by draw_string lies inside measure_string's box, except decorations the font
     /// places below/above it (C02 states containment for text; see DESIGN for the decoration caveat):
     /// underline and strikethrough rectangles are exactly get_bounding_box(position, text width).
-    //@harness prop=C14,C02 kind=contract tier=quick class=P fns=src/mono_font/mono_text_style.rs::MonoTextStyle::draw_decorations
+    //@harness prop=C14,C02,C08 kind=contract tier=quick class=P fns=src/mono_font/mono_text_style.rs::MonoTextStyle::draw_decorations
     #[kani::proof]
     fn c14_draw_decorations() {
         let p = any_parts(64);
@@ -503,7 +503,7 @@ mod verif_c15 {
     /// Single line: alignment places the box so that it starts at (Left), ends at (Right) or is centred
     /// within half a pixel on (Center) the x position; the baseline shifts the line by the documented
     /// offset; draw() returns what the renderer returns for the line.
-    //@harness prop=C15,C02 kind=bounded tier=quick class=P bound="text \"ab\" (one line), symbolic metrics/alignment/baseline/position" timeout=900 fns=src/text/text.rs::Text::lines;src/text/text.rs::Text::bounding_box;src/text/text.rs::Text::draw
+    //@harness prop=C15,C02,C08 kind=bounded tier=quick class=P bound="text \"ab\" (one line), symbolic metrics/alignment/baseline/position" timeout=900 fns=src/text/text.rs::Text::lines;src/text/text.rs::Text::bounding_box;src/text/text.rs::Text::draw
     #[kani::proof]
     #[kani::unwind(8)]
     fn c15_alignment_and_baseline_single_line() {
